@@ -591,6 +591,62 @@ def derive(ol, cur_text, unchanged, lost):
     raise AssertionError(k)
 
 
+_TOK = re.compile(r'[A-Za-z_][A-Za-z_0-9]*|\d+\w*|\S')
+_KEYWORDS = set('let mut if else while loop for in match return break continue fn pub self Self as ref move true false impl use mod struct enum where unsafe'.split())
+
+
+def _fn_spans(lines):
+    """[(lo, hi)] index ranges of the functions of a transformed file (header line .. closing brace at the header's indentation)"""
+    spans = []
+    i, n = 0, len(lines)
+    while i < n:
+        t = lines[i][0]
+        m = re.match(r'^(\s*)(?:pub(?:\([a-z]+\))? )?(?:unsafe )?fn \w+', t)
+        if m:
+            ind = m.group(1)
+            j = i + 1
+            while j < n and lines[j][0] != ind + '}':
+                j += 1
+            spans.append((i, min(j, n - 1)))
+            i = j + 1
+            continue
+        i += 1
+    return spans
+
+
+def local_renames(base, cur, bmap):
+    """consistent renames of local identifiers inside one function (base text -> current text), read off the lines that changed
+    one-for-one: {(lo, hi) base span: {old: new}}.  A rename is accepted only if `old` no longer occurs in the current text of
+    the function and `new` did not occur in its base text - so applying it to the annotation lines of that function is the
+    edit the author of the change would have made.  A wrong guess can only produce text that does not verify."""
+    res = {}
+    for lo, hi in _fn_spans(base):
+        pairs = [(b, bmap[b][1]) for b in range(lo, hi + 1) if bmap.get(b, ('', 0))[0] == 'mod']
+        if not pairs:
+            continue
+        ren, bad = {}, set()
+        for b, c in pairs:
+            tb, tc = _TOK.findall(base[b][0]), _TOK.findall(cur[c][0])
+            if len(tb) != len(tc):
+                continue
+            for x, y in zip(tb, tc):
+                if x != y:
+                    if re.match(r'^[a-z_][a-z_0-9]*$', x) and re.match(r'^[a-z_][a-z_0-9]*$', y) and x not in _KEYWORDS and y not in _KEYWORDS:
+                        if ren.setdefault(x, y) != y:
+                            bad.add(x)
+                    else:
+                        bad.add(x)
+        cur_idx = [bmap[b][1] for b in range(lo, hi + 1) if bmap.get(b, ('', 0))[0] in ('eq', 'mod')]
+        if not cur_idx:
+            continue
+        cur_toks = set(t for c in range(min(cur_idx), max(cur_idx) + 1) for t in _TOK.findall(cur[c][0]))
+        base_toks = set(t for b in range(lo, hi + 1) for t in _TOK.findall(base[b][0]))
+        ok = {x: y for x, y in ren.items() if x not in bad and x not in cur_toks and y not in base_toks}
+        if ok:
+            res[(lo, hi)] = ok
+    return res
+
+
 def merge(olines, base, cur, relpath, overlay_name):
     """emit the current code with the overlay's annotation lines.  Returns (out_lines, origin, info).
     origin[i] = ('C', relpath, repo_line) | ('A', overlay_name, overlay_line)."""
@@ -616,6 +672,29 @@ def merge(olines, base, cur, relpath, overlay_name):
                     bmap[i1 + d] = ('gone', j2)
     out, origin, lost = [], [], []
     cpos = 0
+    # T20: a consistent rename of a local identifier inside a function is carried over to that function's annotation lines
+    renames = local_renames(base, cur, bmap)
+    renamed = 0
+    if renames:
+        span_of = {}
+        for (lo, hi), mp in renames.items():
+            for b in range(lo, hi + 1):
+                span_of[b] = mp
+        last_map = None
+        for ol in olines:
+            if ol.bidx is not None:
+                last_map = span_of.get(ol.bidx)
+                if ol.kind == 'arm' and last_map:
+                    for attr in ('extra', 'after'):
+                        v = getattr(ol, attr)
+                        if v:
+                            setattr(ol, attr, [re.sub(r'\b(%s)\b' % '|'.join(map(re.escape, last_map)), lambda m: last_map[m.group(1)], x) for x in v])
+                continue
+            if last_map:
+                t2 = re.sub(r'\b(%s)\b' % '|'.join(map(re.escape, last_map)), lambda m: last_map[m.group(1)], ol.text)
+                if t2 != ol.text:
+                    ol.text = t2
+                    renamed += 1
 
     def flush(upto):
         nonlocal cpos
@@ -669,7 +748,7 @@ def merge(olines, base, cur, relpath, overlay_name):
         cpos = c + 1
     emit_pending()
     flush(len(cur))
-    info = {'changed_lines': changed, 'lost_rewrites': lost}
+    info = {'changed_lines': changed, 'lost_rewrites': lost, 'annotation_lines_renamed': renamed}
     return out, origin, info
 
 
@@ -749,7 +828,7 @@ def build_unit(overlay_path, base_root, repo_root, out_path, subst_tables=None, 
         origin.append(('A', name, j + 1))
         n_ann = sum(1 for o in or2 if o[0] == 'A')
         files.append({'file': rel, 'select': select, 'code_lines': len(cur), 'annotation_lines': n_ann,
-                      'changed_vs_base': info['changed_lines'], 'lost_rewrites': info['lost_rewrites']})
+                      'changed_vs_base': info['changed_lines'], 'lost_rewrites': info['lost_rewrites'], 'annotation_lines_renamed': info.get('annotation_lines_renamed', 0)})
         # fidelity: the code lines emitted, with the rewrites undone, are exactly the current transformed text
         emitted_code = [t for t, o in zip(o2, or2) if o[0] == 'C']
         if len([1 for _ in cur]) > len(emitted_code) + sum(len(ol.extra or []) for ol in region if ol.kind == 'arm') + len(cur):
